@@ -13,7 +13,7 @@
    value, and re-encoding what was parsed yields identical bytes. *)
 From JT.Base Require Import Prelude Fmt.
 From JT.Model Require Import Msg_simple Msg_text Params Msg_location Msg_all.
-From JT.Proofs Require Import Msg_simple_proofs Msg_helpers_proofs Msg_text_proofs Msg_params_proofs Msg_location_proofs Msg_all_proofs.
+From JT.Proofs Require Import Msg_simple_proofs Msg_helpers_proofs Msg_text_proofs Msg_params_proofs Msg_location_proofs Msg_all_proofs Msg_inj_proofs.
 
 Notation roundtrip m :=
   (forall v, m_wf m v = true ->
@@ -146,6 +146,17 @@ Theorem C07_registry : forall u2g g2u gdom, codec_ok u2g g2u gdom ->
   forall id ver d m, msg_all u2g g2u gdom id ver d = Some m -> roundtrip m.
 Proof. exact (fun u2g g2u gdom Hc id ver d m H => law_of_ok _ (msg_all_ok u2g g2u gdom Hc id ver d m H)). Qed.
 Print Assumptions C07_registry.
+
+(* ---- the converse, Encode(Parse(b)) = b: for the 30 models whose parser loses nothing (fixed layouts, counted
+   lists, length-prefixed strings, the location block, the 2013 authentication, the required alarm-sign layout), every
+   body of bytes that parses to a value of the domain is byte for byte what Encode writes for that value - distinct
+   accepted bodies never collapse to one value.  (It is false for the others, for reasons listed in
+   Proofs/Msg_inj_proofs.v: trailing bytes ignored, text cut at NUL, Trim on both sides, `id 00` vs `id` in P0x8800,
+   free wire order of parameters.) *)
+Theorem C07_parse_injective : forall m, In m lossless_models ->
+  forall b v, bytes b -> m_dec m b = Ok v -> m_wf m v = true -> m_enc m v = b.
+Proof. exact lossless_inj. Qed.
+Print Assumptions C07_parse_injective.
 
 (* ---- the helpers *)
 (* utils.Time2BCD / BCD2Time: every "20YY-MM-DD hh:mm:ss" of decimal digits <-> six bytes of decimal nibbles *)
